@@ -42,7 +42,10 @@ def strategy(tier):
         else:
             m = 7 if big else 5
             nel = [draw(st.integers(1, m)) for _ in range(3)]
-        return {"nel": nel, "unit": [draw(unit) for _ in range(3)], "ndof": draw(st.integers(1, 4)),
+        units = [draw(unit) for _ in range(3)]
+        if draw(st.sampled_from([False, False, True])):
+            units = [draw(st.integers(1, 3)) for _ in range(3)]     # integer-typed element sizes
+        return {"nel": nel, "unit": units, "ndof": draw(st.integers(1, 4)),
                 "pts": draw(st.lists(st.lists(coord, min_size=3, max_size=3), min_size=1, max_size=4))}
     return case()
 
